@@ -122,7 +122,7 @@ class InverseLaplaceTransformer(UnilateralInverseTransformer):
             if sexpr.degree == 2:
                 try:
                     return self.do_damped_sin(sexpr, s, t)
-                except ValueError:
+                except (ValueError, TypeError):
                     pass
             # if False and sexpr.degree == 3 and Ratfun(expr * s).degree == 2:
             #    return self.do_damped_sin3(sexpr, s, t)
